@@ -84,12 +84,12 @@ def lexer_job(prog, make_chars, deadline, seed=0, label='', max_paths=10**9, key
         if r.variant != 'Ok': return ('rejects', 'the lexer rejects a string that the lexical rules accept', None)
         got = r.fields[0].v.items
         if len(got) != len(want): return ('tokens', f'{len(got)} tokens, expected {len(want)}', None)
-        conds = []
+        conds = []; pconds = []
         for g, w in zip(got, want):
             gp, gt = g.v.fields[0].v, MM.deref_all(g.v.fields[1].v)
             if gt.variant != w[1]: return ('tokens', f'token kind {gt.variant}, expected {w[1]}', None)
             pc_ = gp.concrete(); 
-            if not (pc_ is not None and isinstance(w[0], int) and pc_ == w[0]): conds.append(gp.bv != as_bv64(w[0]))
+            if not (pc_ is not None and isinstance(w[0], int) and pc_ == w[0]): pconds.append(gp.bv != as_bv64(w[0]))
             k = w[1]
             if k in ('Identifier', 'QuotedIdentifier'):
                 b = chars_equal_bad(gt.fields[0].v.chars, w[2])
@@ -104,7 +104,11 @@ def lexer_job(prog, make_chars, deadline, seed=0, label='', max_paths=10**9, key
         if conds:
             c = z3.Or(*conds)
             sat, _ = ex.eng.check(ex.pc + [c])
-            if sat: ex.assume(c); return ('payload', 'token position or payload differs from the lexical rules', None)
+            if sat: ex.assume(c); return ('payload', 'token payload differs from the lexical rules', None)
+        if pconds:          # positions (byte offsets of the lexemes, the end-of-input token included): what error locations are made of
+            c = z3.Or(*pconds)
+            sat, _ = ex.eng.check(ex.pc + [c])
+            if sat: ex.assume(c); return ('position', 'a token position is not the byte offset of its lexeme', None)
         return None
     def on_path(ex, r):
         S['paths'] += 1; S['outcomes'][r[0]] += 1
@@ -120,7 +124,7 @@ def lexer_job(prog, make_chars, deadline, seed=0, label='', max_paths=10**9, key
         if r[1] is not None:
             cls, why, _ = r[1]
             exp = 'compile-err' if cls == 'accepts' else ('lexes' if cls == 'rejects' else why)
-            key = {'accepts': f'{keyprefix}:lexer-accepts-invalid', 'rejects': f'{keyprefix}:lexer-rejects-valid', 'tokens': f'{keyprefix}:lexer-wrong-tokens', 'payload': 'c09:token-value',
+            key = {'accepts': f'{keyprefix}:lexer-accepts-invalid', 'rejects': f'{keyprefix}:lexer-rejects-valid', 'tokens': f'{keyprefix}:lexer-wrong-tokens', 'payload': 'c09:token-value', 'position': 'c12:token-position',
                    'erroffset': 'c12:lexer-error-offset', 'errclass': 'c12:compile-error-not-parse', 'errexpr': 'c12:error-expression'}[cls]
             want = ex.u_want
             wdesc = None
